@@ -89,6 +89,21 @@ BUILT = {
          "from_parts(into_parts(x)) == x on every accepted input, every from_parts product value (where it must also equal parsing the joined string for every order/duplication of up to 4 variants) and every E3 state; integer form -> from_raw_unchecked -> equal subtag with intact text on every valid subtag of the C15 spaces; distinct subtags <-> distinct integers on all 2-3 letter languages, all scripts, all regions, all 4-character variants and reduced-alphabet longer ones.",
          "from_raw_unchecked is used only on integers obtained from real subtags (DESIGN §6.4).",
          "DESIGN.md §4 C17"),
+ "C16": ("E5 enumeration of generated programs (macro invocations), compiled with cargo from the working tree",
+         "bounded-exhaustive enumeration of (macro, literal) invocations as generated programs: compiler diagnostics attributed per invocation line, run-time comparison of every expansion with parsing",
+         "A literal universe (token sequences over a 15-token alphabet, skeleton families with every extension shape, every language-id skeleton in three renderings, all single tokens of the class alphabet, one-edit neighbours) is classified per macro by the reference recognisers; every well-formed invocation is compiled, bound with let and compared (== and Debug text) with run-time parsing under catch_unwind, list macros over chunks; for every ill-formed invocation the compiler's error back-trace must end at that invocation line. A well-formed line that does not compile is reported and removed, then the rest is rebuilt and run.",
+         "Trusted: reference recognisers; rustc's JSON diagnostics. Non-UTF-8 literals cannot be written; const-context use is outside (DESIGN §4 C16).",
+         "DESIGN.md §4 C16"),
+ "C19": ("E1/E2 input spaces through serde_json (two encodings, four entry points) + fixed list of non-string documents + E3 H-id values",
+         "bounded-exhaustive enumeration of C02's input spaces, each input deserialised through several serde_json paths and compared with FromStr; every accepted value serialised and compared with its canonical string",
+         "Every UTF-8 input of the token trees and language-id skeleton neighbourhoods is JSON-encoded twice (minimal escapes; every UTF-16 unit as \\uXXXX) and deserialised via from_str, from_slice, from_reader and from_value: Ok(v) iff FromStr gives Ok(v). Accepted values serialise (to_string, to_vec, to_value) to exactly the quoted canonical string and deserialise back. Non-UTF-8 inputs, a fixed list of non-string documents (incl. deeply nested ones) and non-string Values must give Err, never a panic. Every LanguageIdentifier reachable in the E3 H-id harness is round-tripped.",
+         "serde_json is the only self-describing format available offline (text and Value paths).",
+         "DESIGN.md §4 C19"),
+ "C20": ("E5 enumeration of feature configurations: one transcript program built per feature set and run on the same enumerated corpus",
+         "exhaustive enumeration of feature sets (thorough: all 32 combinations + binary), each executing the same bounded-exhaustive corpus; per-chunk transcript digests compared across configurations",
+         "The transcript program (parsing of every token sequence to the stated depth through both parsers and canonicalize, ordering and &str equality of all accepted values, matches() on all pairs of a 384-identifier domain, every sequence of up to three of 24 mutator calls) is built against the working tree once per feature set; digests of every 1000-line chunk must be identical in all configurations, and character_direction may differ only across the likely-subtags setting and only on script-less identifiers. A differing chunk is re-run to show the first differing line.",
+         "64-bit FNV digests per chunk; the transcript covers the feature-independent API only (extra APIs are by definition not comparable).",
+         "DESIGN.md §4 C20"),
 }
 
 def main():
@@ -130,6 +145,7 @@ def main():
             {"name": "E2", "path": "/verif/mc/mc/src/spaces.rs", "kind_free_text": "deviation-bounded exploration: model-generated skeletons and their complete k-edit neighbourhoods"},
             {"name": "E3", "path": "/verif/mc/mc/src/props/history.rs", "kind_free_text": "explicit-state exploration of mutation histories: level-synchronised BFS to exhaustion over (real value, model value) pairs, exact de-duplication, route-independence table; unique-state count cross-checked with stateright 0.31 spawn_bfs"},
             {"name": "E4", "path": "/verif/mc/mc/src/props/", "kind_free_text": "complete enumeration of finite product domains (CLDR universe, table entries, byte-string products, identifier pairs, from_parts product)"},
+            {"name": "E5", "path": "/verif/mc/mc/src/props/macros.rs", "kind_free_text": "enumeration of programs and configurations: generated crates of macro invocations (C16), transcript program built per feature set (C20)"},
             {"name": "refmodel", "path": "/verif/mc/refmodel/src/lib.rs", "kind_free_text": "reference models (UTS #35 recogniser with zones, value model, likely-subtags dictionary, direction data)"},
         ],
         "checks": checks,
